@@ -216,7 +216,7 @@ def check(ctx):
         if not ok:
             ctx.violation('C15.R5', rel, f, Model.qual(f), 'decode_with_length must return (value, offset) of the single decode(data, 0) call after check_decode_error', stmt='decode_with_length shape')
         g = model.func(rel, 'CompiledType.decode')
-        ok = _returns_result_of(g, 'self.decode_with_length'
+        ok = _returns_result_of(g, 'self.decode_with_length')
         ctx.instance('C15.R5', Model.qual(g), 'ok' if ok else 'VIOLATION', node=g, file=rel)
         if not ok:
             ctx.violation('C15.R5', rel, g, Model.qual(g), 'decode() is no longer decode_with_length()[0]: the two entry points may disagree', stmt='decode = decode_with_length[0]')
@@ -229,7 +229,7 @@ def check(ctx):
     if not ok:
         ctx.violation('C15.R5', COMP, sp, Model.qual(sp), 'Specification.decode_with_length does not return the codec result unchanged', stmt='pass-through')
     sl = model.func(COMP, 'Specification.decode_length')
-    ok = _returns_result_of(sl, 'self._decode_length'
+    ok = _returns_result_of(sl, 'self._decode_length')
     ctx.instance('C15.R5', Model.qual(sl), 'ok' if ok else 'VIOLATION', node=sl, file=COMP)
     if not ok:
         ctx.violation('C15.R5', COMP, sl, Model.qual(sl), 'Specification.decode_length does not return the probe result unchanged', stmt='pass-through')
